@@ -11,6 +11,11 @@
    the property (never consults the model); it decides what is a violation;
 4. client-side sample: 1-3 real client processes on one real tracker through the public
    register / maybe_unlink / unregister API, normal exits and SIGKILL (sampled, reported as such);
+4b. TemporaryResourcesManager (Model/TempManager.v): the real manager + real tracker + real directory
+   driven event by event (register_new_context, file life-cycle, _clean_temporary_resources with
+   instrumented register/unregister/maybe_unlink/delete_folder, tracker optionally frozen), then the
+   client is killed or exits; ORDER of the actions and the disk after every event are compared with
+   the model, the end-state oracle is "nothing of ours left after the tracker exited";
 5. life-cycle sample of the per-call temporary folder through real Parallel calls with numpy
    (python3-vt): normal exit, SIGKILL of parent and workers (sampled);
 6. known finding: EOF clean-up aborted under -W error (C20_eof_refuted_werror) replayed, on the loop
@@ -467,6 +472,245 @@ def judge_clients(sc, res):
     return None, None
 
 
+# ------------------------------------- TemporaryResourcesManager: event-level driver
+MG_REQ = """From Coq Require Import ZArith List Bool.
+Require Import JV.Model.ResTracker JV.Model.TempManager.
+Import ListNotations. Open Scope Z_scope."""
+MG_DEFS = """Definition show_t (t : rtype) : Z := match t with Folder => 0 | File => 1 | Semlock => 2 end.
+Definition show_q (q : request) : Z * list Z :=
+  match q with
+  | QRegister t n => (10 + show_t t, n) | QUnregister t n => (20 + show_t t, n)
+  | QMaybeUnlink t n => (30 + show_t t, n) | _ => (0, [])
+  end.
+Definition show_a (a : action) : Z * list Z :=
+  match a with
+  | ASend q => show_q q
+  | AMkdir c => (1, [Z.of_nat c])
+  | AWrite c f => (2, [Z.of_nat c; Z.of_nat f])
+  | ADeleteFolder c ok => (if ok then 4 else 3, [Z.of_nat c])
+  end.
+Definition show_fs (fo : list nat) (fi : list (nat * nat)) :=
+  (map Z.of_nat fo, map (fun x => (Z.of_nat (fst x), Z.of_nat (snd x))) fi).
+Fixpoint states (w : world) (evs : list event) :=
+  match evs with
+  | [] => []
+  | e :: t => let w' := fst (ev_step w e) in
+              (map show_a (snd (ev_step w e)), show_fs (w_folders w') (w_files w')) :: states w' t
+  end.
+Definition show_m (evs : list event) :=
+  (states world0 evs, let d := disk_after_kill (run_events world0 evs) in show_fs (fst d) (snd d))."""
+MG_CTX0 = 9
+MG_PAD = 6
+
+
+def mg_coq_events(sc):
+    """scenario -> (flat Coq event list, owner index per flat event; -1 = constructor)"""
+    b = lambda x: "true" if x else "false"  # noqa
+    flat, owner = ["ENewContext %d" % MG_CTX0] + ["ETracker"] * 2, [-1] * 3
+    frozen = False
+    for i, ev in enumerate(sc["events"]):
+        k = ev[0]
+        pad = MG_PAD
+        if k == "new":
+            es = ["ENewContext %d" % ev[1]]
+        elif k == "mkdir":
+            es = ["EMkdir %d" % ev[1]]
+        elif k == "reg":
+            es = ["ERegFile %d %d" % (ev[1], ev[2])]
+        elif k == "write":
+            es = ["EWrite %d %d" % (ev[1], ev[2])]
+        elif k == "unl":
+            es = ["EUnlinkFile %d %d" % (ev[1], ev[2])]
+        elif k == "clean":
+            es = ["ECleanFiles %d %s" % (ev[1], b(ev[2]))] + ([] if frozen else ["ETracker"] * MG_PAD) + \
+                 ["ECleanFolder %d %s" % (ev[1], b(ev[3] or ev[2]))]
+        elif k == "freeze":
+            frozen, es = True, []
+        elif k == "thaw":
+            frozen, es, pad = False, [], 60
+        es = es + ([] if frozen else ["ETracker"] * pad)
+        flat += es
+        owner += [i] * len(es)
+    return flat, owner
+
+
+def mg_real_actions(actions):
+    out = []
+    for kind, x, lab in actions:
+        if kind == "delete":
+            out.append((4 if x == "ok" else 3, list(lab)))
+        elif kind in ("reg", "unreg", "unl") and isinstance(lab, list):
+            code = {"reg": 10, "unreg": 20, "unl": 30}[kind] + TCODE.get(x, 9)
+            out.append((code, [lab[0]] if len(lab) == 1 else [lab[0], 47, lab[1]]))
+        else:
+            out.append((99, [kind, x, str(lab)]))
+    return out
+
+
+def mg_norm(seq):
+    """order inside a run of per-file requests is os.listdir order: compare runs as multisets"""
+    out, run = [], []
+    for a in seq:
+        if a[0] in (21, 31):
+            run.append(a)
+        else:
+            out += sorted(run) + [a]
+            run = []
+    return out + sorted(run)
+
+
+def mg_compare(sc, res, mval):
+    s = mval.replace("%Z", "").replace("%nat", "").replace(";", ",")
+    states, final = ast.literal_eval(s)
+    flat, owner = mg_coq_events(sc)
+    if len(states) != len(flat):
+        return "model returned %d states for %d events" % (len(states), len(flat))
+    per = {}
+    for (acts, fs), o in zip(states, owner):
+        d = per.setdefault(o, {"acts": [], "fs": None})
+        d["acts"] += [(a[0], list(a[1])) for a in acts if a[0] not in (1, 2)]
+        d["fs"] = fs
+    init = mg_real_actions(res.get("init_actions", []))
+    if mg_norm(init) != mg_norm(per[-1]["acts"]):
+        return "constructor: model %s, implementation %s" % (per[-1]["acts"], init)
+    for i, st in enumerate(res["steps"]):
+        m = per.get(i, {"acts": [], "fs": None})
+        real = mg_real_actions(st["actions"])
+        if mg_norm(real) != mg_norm(m["acts"]):
+            return "event %d %s: model performs %s, implementation %s" % (i, st["ev"], mg_norm(m["acts"]), mg_norm(real))
+        if m["fs"] is not None:
+            mfo, mfi = sorted(m["fs"][0]), sorted([list(x) for x in m["fs"][1]])
+            if mfo != sorted(st["disk"]["folders"]) or mfi != sorted(st["disk"]["files"]):
+                return "event %d %s: model disk %s %s, implementation %s" % (i, st["ev"], mfo, mfi, st["disk"])
+    if sc.get("end", "kill") == "kill" and bool(list(final[0]) or list(final[1])) != bool(res["left"]):
+        return "after the kill: model %s, implementation %s" % (final, res["left"])
+    return None
+
+
+def judge_manager(sc, res):
+    """(violation | None, inconclusive | None): the end-state oracle"""
+    if "harness_error" in res:
+        return None, "harness error " + res["harness_error"]
+    if res.get("flags") or any(not st["synced"] for st in res["steps"]):
+        return None, "flags %s %s" % (res.get("flags"), res.get("stderr_tail", "")[-200:])
+    if res["left"]:
+        return ("after the client %s and the tracker exited, left on disk: %s" % (
+            "was killed" if sc.get("end", "kill") == "kill" else "exited normally", res["left"])), None
+    return None, None
+
+
+def gen_manager(rng):
+    evs = []
+    if rng.random() < 0.6:
+        c = rng.choice([1, 2])
+        evs += [["new", c], ["mkdir", c]]
+        files = rng.sample([0, 1, 2], rng.choice([1, 1, 2, 3]))
+        regs = {}
+        for f in files:
+            regs[f] = rng.choice([1, 2, 2, 3])
+            evs += [["reg", c, f]] * regs[f]
+            if rng.random() < 0.9:
+                evs.append(["write", c, f])
+        for _ in range(rng.choice([0, 0, 1, 2, 3])):
+            evs.append(["unl", c, rng.choice(files)])
+        if rng.random() < 0.15:
+            evs.append(["freeze"])
+        evs.append(["clean", c, rng.random() < 0.2, rng.random() < 0.3])
+        for _ in range(rng.choice([0, 0, 1, 3])):
+            k = rng.choice(["unl", "clean", "new", "mkdir", "write", "thaw"])
+            if k == "unl":
+                evs.append(["unl", c, rng.choice(files)])
+            elif k == "clean":
+                evs.append(["clean", c, rng.random() < 0.2, rng.random() < 0.5])
+            elif k == "thaw":
+                evs.append(["thaw"])
+            else:
+                evs.append([k, c] + ([rng.choice([0, 1, 2])] if k == "write" else []))
+    else:
+        for _ in range(rng.randint(5, 16)):
+            k = rng.choice(["new"] * 3 + ["mkdir"] * 3 + ["reg"] * 5 + ["write"] * 4 + ["unl"] * 4 + ["clean"] * 3 + ["freeze", "thaw"])
+            c, f = rng.choice([1, 2]), rng.choice([0, 1, 2])
+            evs.append({"new": ["new", c], "mkdir": ["mkdir", c], "reg": ["reg", c, f], "write": ["write", c, f],
+                        "unl": ["unl", c, f], "clean": ["clean", c, rng.random() < 0.25, rng.random() < 0.4],
+                        "freeze": ["freeze"], "thaw": ["thaw"]}[k])
+    return {"events": evs, "end": "kill" if rng.random() < 0.75 else "exit"}
+
+
+def shrink_manager(ctx, sc):
+    cur = sc
+    for _ in range(5):
+        cands = [{"events": cur["events"][:i] + cur["events"][i + 1:], "end": cur["end"]} for i in range(len(cur["events"]))]
+        if not cands:
+            break
+        res = run_impl_cases(ctx, cands, script="c20_manager.py")
+        better = [c for c, r in zip(cands, res) if judge_manager(c, r)[0]]
+        if not better:
+            break
+        cur = better[-1]
+    return cur
+
+
+def run_manager_stage(ctx, quick):
+    n = 40 if quick else 320
+    scs = [gen_manager(ctx.rng) for _ in range(n)]
+    res = run_impl_cases(ctx, scs, script="c20_manager.py", workers=min(14, common.NCPU))
+    stats = {"scenarios": n, "inconclusive": 0, "disagreements": 0, "kills": sum(1 for s in scs if s["end"] == "kill"),
+             "clean_failed": 0, "clean_ok": 0, "model_evaluations": 0}
+    bad_cases, usable = [], []
+    for i, (sc, r) in enumerate(zip(scs, res)):
+        bad, inc = judge_manager(sc, r)
+        if inc:
+            r = run_impl_cases(ctx, [sc], script="c20_manager.py", workers=1)[0]
+            res[i] = r
+            bad, inc = judge_manager(sc, r)
+        if inc:
+            stats["inconclusive"] += 1
+            ctx.note("manager scenario inconclusive (%s): %s" % (inc, json.dumps(sc)))
+            continue
+        usable.append(i)
+        for st in r["steps"]:
+            for a in st["actions"]:
+                if a[0] == "delete":
+                    stats["clean_ok" if a[1] == "ok" else "clean_failed"] += 1
+        if bad:
+            bad_cases.append((bad, sc))
+    exprs = ["show_m %s" % common.coq_list(mg_coq_events(scs[i])[0]) for i in usable]
+    vals = ctx.coq_eval_lines(MG_REQ, MG_DEFS, exprs, name="c20mg", shard=max(4, len(exprs) // common.NCPU + 1))
+    stats["model_evaluations"] = len(vals)
+    dis = []
+    for i, v in zip(usable, vals):
+        d = mg_compare(scs[i], res[i], v)
+        if d:
+            dis.append({"what": d, "scenario": scs[i]})
+    stats["disagreements"] = len(dis)
+    for bad, sc in bad_cases[:2]:
+        small = shrink_manager(ctx, sc)
+        ctx.violation("TemporaryResourcesManager: " + bad, {"kind": "manager", "scenario": small}, True)
+    if dis and not bad_cases:
+        # look for a failing input with the end-state oracle near the disagreeing scenarios
+        found = None
+        extra = []
+        for d in dis[:6]:
+            evs = d["scenario"]["events"]
+            for cut in range(1, len(evs) + 1):
+                extra.append({"events": evs[:cut], "end": "kill"})
+        extra += [gen_manager(ctx.rng) for _ in range(60)]
+        for sc, r in zip(extra, run_impl_cases(ctx, extra, script="c20_manager.py", workers=min(14, common.NCPU))):
+            b, inc = judge_manager(sc, r)
+            if b:
+                found = (b, sc)
+                break
+        if found:
+            ctx.violation("TemporaryResourcesManager: " + found[0],
+                          {"kind": "manager", "scenario": shrink_manager(ctx, found[1]), "first_disagreement": dis[0]}, True)
+        else:
+            ctx.violation("TemporaryResourcesManager model and implementation disagree (%d scenarios): %s" % (len(dis), dis[0]["what"]),
+                          {"kind": "correspondence", "first_disagreement": dis[0],
+                           "correspondence": "Model/TempManager.v ev_step vs TemporaryResourcesManager (order of actions, disk)"},
+                          found_input=False)
+    return stats, scs[0]
+
+
 # ------------------------------------------------ Parallel + numpy life-cycle sample
 KEY_WERROR_E2E = "eof-cleanup-aborted:-W-error:parallel-memmap-folder-left-after-kill"
 
@@ -628,6 +872,9 @@ def run(ctx):
             ctx.violation("client-side sample: " + bad, {"kind": "clients", "scenario": sc}, True)
         cl_kills += sum(1 for s in sc["script"] if s[1] == "kill")
 
+    # TemporaryResourcesManager, event by event, then kill / exit
+    mg_stats, mg_sample = run_manager_stage(ctx, quick)
+
     # Parallel + numpy life-cycle (sampled; python3-vt)
     modes = ["normal", "kill", "kill", "kill-werror"] if quick else ["normal"] * 3 + ["kill"] * 6 + ["kill-werror"]
     with cf.ThreadPoolExecutor(min(6, len(modes))) as ex:
@@ -661,9 +908,9 @@ def run(ctx):
                       {"kind": "correspondence", "case": WERROR_WITNESS,
                        "correspondence": "cleanup_all (unprotected warnings.warn in _unlink_resources)"}, found_input=False)
 
-    samples = [strip_case(cases[0]), strip_case(cases[len(cases) // 2]), scs[0]]
+    samples = [strip_case(cases[0]), strip_case(cases[len(cases) // 2]), scs[0], mg_sample]
     ctx.finish({
-        "evaluations": len(cases) + len(scs) + len(modes) + 1,
+        "evaluations": len(cases) + len(scs) + len(modes) + 1 + mg_stats["scenarios"],
         "distinct_nontrivial": len(nontrivial),
         "rule": "tracker-loop cases: 4-41 lines each over files f1 f2 d1/f3 a:b, folders d1 d2 (d2 holds an untracked file), "
                 "semaphore name /jvc20s; 78% well-formed REGISTER/MAYBE_UNLINK/UNREGISTER (5% with a type that does not fit "
@@ -673,7 +920,7 @@ def run(ctx):
                 "non-trivial = at least one reference count returned to zero inside the loop; distinct by canonical JSON. "
                 "client scenarios: 1-3 forked clients, 6-14 operations, one SIGKILL each, optional early exits",
         "samples": samples,
-        "traces_validated_against_impl": len(vals),
+        "traces_validated_against_impl": len(vals) + mg_stats["model_evaluations"],
         "model_evaluations": len(vals),
         "lines_sent": n_lines,
         "line_kinds_and_events": kinds,
@@ -684,6 +931,7 @@ def run(ctx):
         "client_sigkills": cl_kills,
         "client_inconclusive": cl_inconclusive,
         "client_side_is_sampled": True,
+        "manager_stage": mg_stats,
         "parallel_numpy_runs": modes,
         "parallel_numpy_ok": np_ok,
         "parallel_numpy_inconclusive": np_inconclusive,
@@ -707,6 +955,12 @@ def replay(ctx, path):
         r = run_impl_cases(ctx, [sc], script="c20_clients.py", workers=1)[0]
         bad, inc = judge_clients(sc, r)
         print("replay (client sample):", json.dumps(sc), "=>", bad or inc or "property holds")
+        return 1 if bad else 0
+    if rep.get("kind") == "manager":
+        sc = rep["scenario"]
+        r = run_impl_cases(ctx, [sc], script="c20_manager.py", workers=1)[0]
+        bad, inc = judge_manager(sc, r)
+        print("replay (TemporaryResourcesManager):", json.dumps(sc), "=>", bad or inc or "property holds")
         return 1 if bad else 0
     if rep.get("kind") == "parallel-numpy":
         r = run_np(ctx, rep["mode"])
